@@ -85,10 +85,18 @@ const (
 	kNotFound
 	kNoMethod
 	kOptions
+	kEncSlash // route(inherits) reached by a target with an escaped slash (RawPath set)
+	kEncByte  // route(inherits) reached by a target with a needlessly escaped byte (RawPath set)
+	kQuery    // route(inherits) with a query string
 	nKinds
 )
 
-var kNames = [...]string{"route(inherits)", "route(own resolver ok)", "route(own resolver failing)", "route(resolver nil)", "redirect", "404", "405", "OPTIONS"}
+// rawTargets: the escaped form of the request path for the kinds that have one.
+var rawTargets = map[int]string{kEncSlash: "/enc/a%2Fb", kEncByte: "/enc/%41lice"}
+
+func isRouteKind(k int) bool { return k <= kOwnNil || k >= kEncSlash }
+
+var kNames = [...]string{"route(inherits)", "route(own resolver ok)", "route(own resolver failing)", "route(resolver nil)", "redirect", "404", "405", "OPTIONS", "route(inherits) escaped slash", "route(inherits) escaped byte", "route(inherits) with query"}
 
 // behaviours of the route handler
 type behaviour struct {
@@ -156,6 +164,7 @@ func newWorld(g int) *world {
 		must(f.Handle("GET", "/ownfail", h, fox.WithClientIPResolver(resolver{fail: true})))
 		must(f.Handle("GET", "/ownnil", h, fox.WithClientIPResolver(nil)))
 		must(f.Handle("GET", "/redir/", h, fox.WithRedirectTrailingSlash(true)))
+		must(f.Handle("GET", "/enc/{x}", h))
 		return f
 	}
 	w.f = build(true)
@@ -181,6 +190,12 @@ func request(kind int, remote string) (string, string) {
 		return "GET", "/nothing"
 	case kNoMethod:
 		return "POST", "/plain"
+	case kEncSlash:
+		return "GET", "/enc/a/b"
+	case kEncByte:
+		return "GET", "/enc/Alice"
+	case kQuery:
+		return "GET", "/plain"
 	}
 	return "OPTIONS", "/plain"
 }
@@ -246,6 +261,12 @@ func (w *world) evalStep(g int, st Step) (string, string) {
 	desc := fmt.Sprintf("%s, request %s %s (%s, handler behaviour %+v, remote %s)", gNames[g], method, path, kNames[st.Kind], st.Beh, remotes[st.Remote])
 	serve := func(f *fox.Router) (rw *fx.RW, pv any) {
 		r := fx.Req(method, "example.test", path)
+		if raw, ok := rawTargets[st.Kind]; ok {
+			r = fx.ReqRaw(method, "example.test", path, raw, "")
+		}
+		if st.Kind == kQuery {
+			r = fx.ReqRaw(method, "example.test", path, "", "q=1&path=/other")
+		}
 		r.RemoteAddr = remotes[st.Remote]
 		rw = fx.NewRW()
 		defer func() { pv = recover() }()
@@ -268,7 +289,7 @@ func (w *world) evalStep(g int, st Step) (string, string) {
 	if rw.Code != rw0.Code || string(rw.Body) != string(rw0.Body) || fmt.Sprint(rw.H) != fmt.Sprint(rw0.H) {
 		return "response-altered", fmt.Sprintf("response with Logger (%d, %q, %v) differs from the one without (%d, %q, %v): %s", rw.Code, rw.Body, rw.H, rw0.Code, rw0.Body, rw0.H, desc)
 	}
-	isRoute := st.Kind <= kOwnNil
+	isRoute := isRouteKind(st.Kind)
 	if pv != nil {
 		if len(w.cap.recs) != 0 {
 			return "record-on-panic", fmt.Sprintf("a record was emitted although the handler panicked: %s", desc)
@@ -341,7 +362,7 @@ func run(c *mc.Ctx, r *mc.Result) {
 				if prev == -1 && kind == kPlain {
 					bl = behs
 				}
-				if kind > kOwnNil {
+				if !isRouteKind(kind) {
 					bl = few[:1]
 				}
 				for _, b := range bl {
